@@ -304,6 +304,57 @@ def run_C16(ctx):
     decide(ctx, b, "TraceBuild", BUILD_INVS["C16"], t)
 
 
+# ----------------------------------------------------------------------------
+# codec
+
+CODEC_INVS = ["Inv_NoPanic", "Inv_C09_Accept", "Inv_C09_Ref", "Inv_C09_Reencode", "Inv_C09_Canonical", "Inv_C09_Perm",
+              "Inv_C09_X", "Inv_C09_XPerm"]
+
+
+def cfg_codec(maxopt, maxunk, nm, bsmodes, muts, pfs=True, export=True):
+    return ("SPECIFICATION Spec\nCONSTANTS\n  MaxOpt = %d\n  MaxUnknown = %d\n  AllowNM = %s\n  BSModes = {%s}\n  Muts = {%s}\n"
+            "  PackedFlagSet = %s\nINVARIANTS Inv_C09_Accept Inv_GenConformant Inv_C13_Reject Inv_C13_RejectWT%s\nCHECK_DEADLOCK FALSE\n") % (
+        maxopt, maxunk, "TRUE" if nm else "FALSE", ", ".join('"%s"' % b for b in bsmodes), ", ".join('"%s"' % m for m in muts),
+        "TRUE" if pfs else "FALSE", " Export" if export else "")
+
+
+BS_ALL = ["none", "unpacked1", "unpacked2", "packed0", "packed1", "packed2"]
+MUTS_ALL = ["none", "tag0", "trunc", "wiretype", "notype", "mixed"]
+
+
+def codec_cases(ctx, b, q, fuzzevery=25):
+    cfgs = [("perm", cfg_codec(2 if q else 3, 0, False, ["none", "unpacked2", "packed2"], ["none"])),
+            ("unknown", cfg_codec(1, 1 if q else 2, False, BS_ALL if not q else ["none", "unpacked2", "packed2", "packed0"], ["none"])),
+            ("nm_muts", cfg_codec(1 if q else 2, 0, True, ["none", "unpacked1", "packed1"], MUTS_ALL))]
+    traces = []
+    total = 0
+    for name, cfg in cfgs:
+        r = vlib.model_check(ctx, "Codec", cfg, name="Codec_" + name, want_cases=True, workers=1)
+        cases = r["cases"]
+        total += len(cases)
+        cap = 12000 if q else 400000
+        if len(cases) > cap:
+            step = len(cases) / cap
+            cases = [cases[int(i * step)] for i in range(cap)]
+        cf_ = ctx.path(f"codec_{name}.jsonl")
+        open(cf_, "w").write("\n".join(cases) + "\n")
+        traces.append(gen(ctx, b, "codec_" + name, ["codec-replay", "-cases", cf_, "-vecs", 2 if q else 6, "-fuzzevery", fuzzevery]))
+    ctx.extra["tlc_presentations_exported"] = total
+    return traces
+
+
+def run_C09(ctx):
+    b = vlib.build_harness()
+    q = ctx.quick
+    # non-vacuity / documentation of F2: the decoder without the packed flag violates the same invariant
+    vlib.model_check(ctx, "Codec", cfg_codec(1, 0, False, ["packed1"], ["none"], pfs=False, export=False),
+                     name="Codec_packedflag_unset", expect_violation="Inv_C09_Accept")
+    t = codec_cases(ctx, b, q)
+    t.append(gen(ctx, b, "codecx", ["codec-gen", "-count", 400 if q else 20000, "-seed", ctx.seed]))
+    ctx.exhaustive = True
+    decide(ctx, b, "TraceCodec", CODEC_INVS, t)
+
+
 def finish(ctx, plan):
     vlib.write_evidence(ctx, LEVEL, plan["rule"], ASSUME_COMMON + plan.get("assume", []))
 
@@ -371,7 +422,23 @@ RULE_BUILD = ("a case is one logical input (file shape/content/chunker/width, en
               "with its variants (orders, fragmentations, repeats, every single write-open/commit failure); every n <= bound x "
               "width is enumerated, random cases derive from VERIF_SEED; non-trivial = at least one block written; distinct = case ids")
 
+TECH_CODEC = ("explicit TLA+ spec (CodecOps/Codec): the decoder transcribed as a machine over token streams, TLC enumerates every "
+              "field permutation / interleaving / packing / unknown-field placement; each stream is serialised with boundary "
+              "values and decoded by this library and by the reference gogo decoder; results validated by TLC against TraceCodec.tla")
+NOTE_CODEC = ("trusted: TLC, protowire (serialisation of the token streams), gogo unixfs_pb as the reference decoder; 64-bit values and "
+              "varint arithmetic are outside the TLA+ model (value ids are instantiated with boundary values by the harness)")
+RULE_CODEC = ("a case is one token stream (TLC-generated presentation of a logical message) x one boundary-value vector, or a "
+              "builder-made / UnixTime / Metadata message drawn from VERIF_SEED; non-trivial = at least one known field beyond the "
+              "type or a malformation; distinct = case ids")
+
 PLANS = {
+    "C09": P(run_C09, "TLC checks on Codec that every conformant presentation (all permutations of up to 2-3 optional fields, the six "
+             "block-size presentations incl. one packed run and interleaved unpacked elements, unknown fields of every wire type "
+             "at every position, non-minimal varints) is accepted by the transcribed decoder with the schema's meaning, and that "
+             "the decoder without the packed flag is not (non-vacuity); every TLC stream is serialised with boundary values "
+             "(0, 2^31, 2^32-1, 2^63, 2^64-1, negative seconds) and decoded by this library and by gogo unixfs_pb; TLC validates "
+             "acceptance, equality with the reference, reference-decoding of the re-encoding, canonical byte identity and the "
+             "permission rule (Inv_C09_*).", rule=RULE_CODEC, technique=TECH_CODEC, note=NOTE_CODEC),
     "C07": P(run_C07, "TLC checks that the transcribed builder layout equals the transcribed reference (boxo fillNodeRec) layout for "
              "every chunk count n<=16 (thorough 40) and width 2..4, and that the pre-fix collapse rule does not (non-vacuity); the "
              "real builder and the real boxo importer are run on every (n,w) up to 24x4 (thorough 90x7), chunk-equality patterns, "
